@@ -206,6 +206,15 @@ Theorem C03_looksLikeUUID_is_generated : forall s, NixV.Store.Db.looksLikeUUID s
 Proof. exact NixV.Store.GenBridge.db_looksLikeUUID_is_generated. Qed.
 Print Assumptions C03_looksLikeUUID_is_generated.
 
+
+(** the model's entity-name check is the generated [util::checkEntityName] (empty => EmptyString, '/' => InvalidName) *)
+Require NixV.Store.DbOps.
+Theorem C03_check_name_is_generated : forall name,
+  NixV.Store.DbOps.check_name name =
+  match NixV.Gen.GenUtil.checkEntityName name with Ok _ => None | Err e => Some e | UB _ => None end.
+Proof. exact NixV.Store.GenBridge.db_check_name_is_generated. Qed.
+Print Assumptions C03_check_name_is_generated.
+
 Theorem C03_current_is_repaired : c03_switches current_behaviour = c03_switches repaired.
 Proof. reflexivity. Qed.
 Print Assumptions C03_current_is_repaired.
